@@ -1,6 +1,6 @@
 (* C11 - A validated ietf-json-patch can never alter public keys or services. *)
 From Coq Require Import String List Bool.
-From Sidetree Require Import Json.Json Sidetree.JsonPatch Sidetree.Composer Sidetree.Validator Sidetree.Frame.
+From Sidetree Require Import Json.Json Sidetree.JsonPatch Sidetree.Composer Sidetree.Validator Sidetree.Frame Sidetree.SeqFrame.
 Import ListNotations.
 Open Scope string_scope.
 
@@ -41,3 +41,18 @@ Example C11_nonvacuous :
   pointer_ok "x/publicKey" = false /\ pointer_ok "/publicKey/0" = false /\ pointer_ok "/service" = false /\
   pointer_ok "/public~0Key" = true.
 Proof. vm_compute. repeat split; try reflexivity. eexists. repeat split; reflexivity. Qed.
+
+(* "Keys and services can therefore be changed only through the dedicated key and service patch
+   actions": a validated ietf-json-patch followed by key / service removals that name no existing
+   id leaves the key and the service entries of the document exactly as they were - whatever the
+   json patch wrote under other member names (publicKeys, services, PublicKey ...). *)
+Theorem C11_ietf_then_unknown_removals : forall uri_ok url_norm doc p d1 kv sv,
+  match p with JObj pm => get_action pm = Some AJsonPatch | _ => False end ->
+  validate_patch uri_ok url_norm p = true ->
+  apply_patch doc p = Some d1 ->
+  (forall e, In e (entries "publicKey" doc) -> mem_str (entry_id e) (string_array (Some kv)) = false) ->
+  (forall e, In e (entries "service" doc) -> mem_str (entry_id e) (string_array (Some sv)) = false) ->
+  let d3 := apply_remove_entries "service" (apply_remove_entries "publicKey" d1 kv) sv in
+  entries "publicKey" d3 = entries "publicKey" doc /\ entries "service" d3 = entries "service" doc.
+Proof. exact ietf_then_unknown_removals. Qed.
+Print Assumptions C11_ietf_then_unknown_removals.
